@@ -657,6 +657,100 @@ func c07Cases(tier string, g *rand.Rand) []c07Case {
 	return cs
 }
 
+// c07StubVetoes: three plugins built on the real stub; for each of the thirteen request kinds the middle
+// one's handler returns an error: the request fails with that error, the first plugin was invoked once,
+// the last one not at all, and the next request of the same kind (no error) reaches all three.
+func c07StubVetoes(dir string, res *ev.Result, tag string) {
+	rt, err := rig.NewRuntime(dir)
+	if err != nil {
+		res.Note("runtime: %v", err)
+		return
+	}
+	if err := rt.Start(); err != nil {
+		res.Note("start: %v", err)
+		return
+	}
+	var mu sync.Mutex
+	inv := map[string][]int{} // request id -> plugin positions invoked
+	vetoID := ""
+	var plugins []*rig.Plugin
+	defer func() {
+		rt.Stop()
+		for _, p := range plugins {
+			p.StopStub()
+		}
+	}()
+	for pos := 0; pos < 3; pos++ {
+		veto := func(id string) error {
+			mu.Lock()
+			defer mu.Unlock()
+			inv[id] = append(inv[id], pos)
+			if pos == 1 && id == vetoID {
+				return fmt.Errorf("scripted veto of %s", id)
+			}
+			return nil
+		}
+		idOf := func(pod *api.PodSandbox, ctr *api.Container) string {
+			if ctr != nil {
+				return ctr.GetId()
+			}
+			return pod.GetId()
+		}
+		h := rig.Handlers{
+			Event: func(_ context.Context, _ api.Event, pod *api.PodSandbox, ctr *api.Container) error {
+				return veto(idOf(pod, ctr))
+			},
+			UpdatePod: func(_ context.Context, pod *api.PodSandbox, _, _ *api.LinuxResources) error { return veto(pod.GetId()) },
+			Create: func(_ context.Context, _ *api.PodSandbox, ctr *api.Container) (*api.ContainerAdjustment, []*api.ContainerUpdate, error) {
+				return nil, nil, veto(ctr.GetId())
+			},
+			Update: func(_ context.Context, _ *api.PodSandbox, ctr *api.Container, _ *api.LinuxResources) ([]*api.ContainerUpdate, error) {
+				return nil, veto(ctr.GetId())
+			},
+			Stop: func(_ context.Context, _ *api.PodSandbox, ctr *api.Container) ([]*api.ContainerUpdate, error) {
+				return nil, veto(ctr.GetId())
+			},
+		}
+		p := rig.NewPlugin(fmt.Sprintf("v%d", pos), fmt.Sprintf("%02d", 10+10*pos), 0, h)
+		plugins = append(plugins, p)
+		if err := p.Connect(rt.Sock); err != nil || !p.WaitSynced(20*time.Second) {
+			res.Note("%s: stub plugin %d did not register: %v", tag, pos, err)
+			res.Inconcl()
+			return
+		}
+	}
+	for i, e := range allEvents {
+		what := map[string]any{"scenario": "handler error in a stub-based plugin", "request": e.String(), "plugins": 3, "vetoing_position": 1}
+		res.Eval()
+		for round, id := range []string{fmt.Sprintf("%s-veto%d", tag, i), fmt.Sprintf("%s-after%d", tag, i)} {
+			mu.Lock()
+			if round == 0 {
+				vetoID = id
+			}
+			mu.Unlock()
+			b := rt.A.BlockPluginSync()
+			_, err := c06Issue(rt.A, e, id)
+			b.Unblock()
+			mu.Lock()
+			got := fmt.Sprint(inv[id])
+			mu.Unlock()
+			if round == 0 {
+				if err == nil || !strings.Contains(err.Error(), "scripted veto of "+id) {
+					res.Violate("C07/veto-ignored", fmt.Sprintf("the %s handler of the second of three stub plugins returned an error, the request returned %v", e, err), what)
+				}
+				if got != "[0 1]" {
+					res.Violate("C07/veto-later-plugin-invoked", fmt.Sprintf("%s vetoed by the second plugin: plugins invoked %s, want [0 1]", e, got), what)
+				}
+			} else {
+				if err != nil || got != "[0 1 2]" {
+					res.Violate("C07/follow-up-failed/veto", fmt.Sprintf("%s after a vetoed one: error %v, plugins invoked %s, want none and [0 1 2]", e, err, got), what)
+				}
+			}
+		}
+		res.Seen("stub-veto|" + e.String())
+	}
+}
+
 func runC07(c *ev.ChildEnv, res *ev.Result) {
 	rig.QuietLogs()
 	// the heavy cases (large requests, flooding peers) run in a child of their own, one rig at a time and
@@ -668,6 +762,14 @@ func runC07(c *ev.ChildEnv, res *ev.Result) {
 	}
 	adaptation.SetPluginRequestTimeout(reqTimeout)
 	adaptation.SetPluginRegistrationTimeout(c07RegTimeout)
+	if !heavy && c.Batch == 0 {
+		c.WAL("stub vetoes")
+		d := c.Dir + "/stubveto"
+		mkdirAll(d)
+		adaptation.SetPluginRequestTimeout(10 * time.Second)
+		c07StubVetoes(d, res, "sv")
+		adaptation.SetPluginRequestTimeout(reqTimeout)
+	}
 	g := rand.New(rand.NewPCG(uint64(c.Seed), 700)) // same list in every child
 	cases := c07Cases(c.Tier, g)
 	reps := tierN(c.Tier, 8, 50)
